@@ -219,6 +219,8 @@ def main(tier, seed):
     plans.append(dict(k=3 if tier == "quick" else 4, max_gens=2, max_edits=0, pool="p", only=["a.txt", "d/a.txt"]))
     # the tree reached through a symbolic link to the root (every path of the command line goes through the link)
     plans.append(dict(k=2 if tier == "quick" else 3, max_gens=2, max_edits=0, pool="p", spell="symlink"))
+    # ... and as <link>/../<folder>
+    plans.append(dict(k=2, max_gens=1 if tier == "quick" else 2, max_edits=0, pool="p", spell="dotdot"))
     # files larger than / exactly as large as the block in which they are read
     plans.append(dict(k=2, max_gens=1 if tier == "quick" else 2, max_edits=0, pool="s", sf2=False))
     if os.environ.get("VERIF_ONLY_PLAN"):   # (timing aid when tuning bounds)
